@@ -44,9 +44,19 @@ class ViewSection(Micheline, prim='view', args_len=4):
         if code.prim in ('CREATE_CONTRACT', 'SET_DELEGATE', 'TRANSFER_TOKENS') and not lambda_:
             raise MichelsonRuntimeError('view', f'{code.prim} is not allowed in views')
 
-        lambda_ |= code.prim in ('LAMBDA', 'lambda')
-        for arg in getattr(code, 'args', ()):
+        args = getattr(code, 'args', ())
+        # NOTE: lambda bodies are LAMBDA / LAMBDA_REC code and lambda literals pushed with PUSH (lambda ...) {...}
+        lambda_ |= code.prim in ('LAMBDA', 'LAMBDA_REC')
+        if code.prim == 'PUSH' and len(args) == 2 and ViewSection._contains_lambda(args[0]):
+            lambda_ = True
+        for arg in args:
             ViewSection.check_code(arg, lambda_)
+
+    @staticmethod
+    def _contains_lambda(ty: Type['Micheline']) -> bool:
+        if ty.prim == 'lambda':
+            return True
+        return any(ViewSection._contains_lambda(arg) for arg in getattr(ty, 'args', ()))
 
     @classmethod
     def create_type(
